@@ -9,7 +9,7 @@
   construction (every model function is a total Lean function). `struct` / `gram`
   (`Spec/IdGrammar.lean`) are the required structure and the recommended grammar.
 -/
-import RumaModel.Lemmas.IdsCtor
+import RumaModel.Lemmas.IdsIp
 namespace Ruma.Props.C10
 open Ruma Ruma.Ids Ruma.Spec.IdGrammar
 
@@ -191,7 +191,12 @@ theorem accessors_recompose_mxc (x : Ext) (s : Str) (h : utf8Valid s = true) :
 
 /-- Every accepted identifier has the structure the specification requires of its type: sigil, at
 most 255 bytes, no NUL or colon in the localpart, a server name that is a non-empty hostname / IPv4
-literal or a bracketed IPv6 literal with an optional port of 1–5 digits (`Spec.IdGrammar.struct`). -/
+literal or a bracketed IPv6 literal with an optional port of 1–5 digits; key IDs: a non-empty
+colon-free algorithm and a key name valid for its type; MXC URIs: `mxc://`, such a server name, `/`, a
+media ID of letters, digits, `-`, `_`; room versions: 1–32 code points of `[a-zA-Z0-9.-]`; session
+IDs: 1–255 bytes of `[0-9a-zA-Z.=_-]`; client secrets, signing key versions, base64 public keys:
+non-empty (client secrets at most 255 bytes) with every ASCII character in the specified set
+(`Spec.IdGrammar.struct`). -/
 theorem accept_implies_structure (x : Ext) (k : Kind) (s : Str) (h : utf8Valid s = true)
     (hv : validate x k s = .ok ()) : struct x.isIpv6 k s = true := by
   have hs := sep_of_utf8Valid s h
@@ -243,14 +248,10 @@ theorem accept_implies_structure (x : Ext) (k : Kind) (s : Str) (h : utf8Valid s
     exact cutAt_iff.2 ⟨alg, name, rfl, algOk alg hne hn, rfl⟩
   · -- key (signing key version)
     obtain ⟨alg, name, rfl, hn, hne, hkn⟩ := key _ hv
-    refine cutAt_iff.2 ⟨alg, name, rfl, algOk alg hne hn, ?_⟩
-    simp only [keyNameValidate, serverSigningKeyVersionValidate] at hkn
-    cases name <;> simp_all [keyNameStruct]
+    exact cutAt_iff.2 ⟨alg, name, rfl, algOk alg hne hn, struct_signingKeyVersion hkn⟩
   · -- key (base64)
     obtain ⟨alg, name, rfl, hn, hne, hkn⟩ := key _ hv
-    refine cutAt_iff.2 ⟨alg, name, rfl, algOk alg hne hn, ?_⟩
-    simp only [keyNameValidate, base64PublicKeyValidate] at hkn
-    cases name <;> simp_all [keyNameStruct]
+    exact cutAt_iff.2 ⟨alg, name, rfl, algOk alg hne hn, struct_base64PublicKey hkn⟩
   · -- mxc
     cases hm : mxcValidate x s with
     | err => simp [hm, Res.void] at hv
@@ -263,34 +264,11 @@ theorem accept_implies_structure (x : Ext) (k : Kind) (s : Str) (h : utf8Valid s
       simp only [mxc, ht, hd, bs_mxc, beq_self_eq_true, Bool.true_and]
       refine cutAt_iff.2 ⟨srv, media, rfl, structServerName_of_serverOk hsrv, ?_⟩
       rw [all_congr mediaChar_eq]; exact hmed
-  · -- room version
-    unfold roomVersionIdValidate at hv
-    cases s with
-    | nil => simp at hv
-    | cons a t =>
-      by_cases hc : charCount (a :: t) > 32
-      · simp [hc] at hv
-      · simp [codePoints_eq]; omega
-  · -- signing key version
-    unfold serverSigningKeyVersionValidate at hv
-    cases s <;> simp_all
-  · -- base64 public key
-    unfold base64PublicKeyValidate at hv
-    cases s <;> simp_all
-  · -- client secret
-    unfold clientSecretValidate at hv
-    by_cases hl : s.length > 255
-    · simp [hl] at hv
-    · cases s with
-      | nil => simp at hv
-      | cons a t => simp [max255]; simp at hl; omega
-  · -- session id
-    unfold sessionIdValidate at hv
-    by_cases hl : s.length > 255
-    · simp [hl] at hv
-    · cases s with
-      | nil => simp at hv
-      | cons a t => simp [max255]; simp at hl; omega
+  · exact struct_roomVersion hv
+  · exact struct_signingKeyVersion hv
+  · exact struct_base64PublicKey hv
+  · exact struct_clientSecret hv
+  · exact struct_sessionId hv
 
 /-- Where the code enforces a length limit, an accepted identifier is within it: 255 bytes for
 user, room, alias, room-or-alias and event IDs, client secrets and session IDs; 32 code points for
@@ -314,7 +292,7 @@ theorem length_limit (x : Ext) (k : Kind) (s : Str) (h : utf8Valid s = true)
       · exact hst.1.1
       · exact hst.1
     · exact hst.1.1
-    · exact hst.2
+    · exact hst.1.2
     · exact hst.2
   · rintro rfl
     simp only [struct, Bool.and_eq_true, decide_eq_true_eq] at hst
@@ -684,6 +662,45 @@ theorem accessors_user_conformance (x : Ext) (s : Str) (h : utf8Valid s = true)
     | err => simp [Res.void]
     | panic => exact absurd hc hnp
 
+/-! ## The IPv6 parameter -/
+
+/-- Every string the reference transcription of `Ipv6Addr::from_str` (`Model/IdsIp.lean`, compared
+with the real parser on every run) accepts is `2*45IPv6char` of the specification's server-name
+grammar: 2 to 45 bytes, each a hex digit, `:` or `.`. -/
+theorem ipv6_reference_in_spec_grammar (c : Str) (h : ipv6Ref c = true) :
+    c.all ipv6Char = true ∧ 2 ≤ c.length ∧ c.length ≤ 45 := by
+  obtain ⟨h1, h2, h3⟩ := ipv6Ref_chars h
+  exact ⟨List.all_eq_true.2 h1, h2, h3⟩
+
+/-- With an IPv6 parser that accepts no more than the reference, a server name of at most 255 bytes
+is accepted EXACTLY when it is in the specification's grammar and its port fits `u16` (the known
+finding): "accepts only the spec's grammar" and "accepts every identifier in the grammar" in one
+statement. (Longer server names: the code has no length limit, the grammar caps DNS names at 255.) -/
+theorem server_accept_iff_grammar (x : Ext) (hx : ∀ c, x.isIpv6 c = true → ipv6Ref c = true)
+    (s : Str) (h : utf8Valid s = true) (hl : s.length ≤ 255) :
+    validate x .server s = .ok () ↔
+      (gram x.isIpv6 .server s = true ∧ hasBigPort x.isIpv6 .server s = false) := by
+  have hs := sep_of_utf8Valid s h
+  constructor
+  · intro hv
+    have hok := (serverNameValidate_ok_iff hs).1 hv
+    exact ⟨gramServerName_of_serverOk hx hok hl, serverOk_not_bigPort hok⟩
+  · rintro ⟨hg, hp⟩
+    exact grammar_implies_accept_partial x .server s h hg hp
+
+/-- With such an IPv6 parser an accepted server name contains no NUL (this discharges the side
+condition of `constructor_accepted_new_partial` for room IDs). -/
+theorem accepted_server_has_no_nul (x : Ext) (hx : ∀ c, x.isIpv6 c = true → ipv6Ref c = true)
+    (s : Str) (h : utf8Valid s = true) (hv : validate x .server s = .ok ()) : 0 ∉ s :=
+  serverOk_no_nul hx ((serverNameValidate_ok_iff (sep_of_utf8Valid s h)).1 hv)
+
+-- the hypotheses are satisfiable: "[2001:db8::1]:8448" with the reference parser itself
+example : validate ⟨ipv6Ref, ipv4Ref, fun _ => false⟩ .server
+    (bs "[2001:db8::1]:8448") = .ok () := by
+  have e : bs "[2001:db8::1]:8448"
+      = [91, 50, 48, 48, 49, 58, 100, 98, 56, 58, 58, 49, 93, 58, 56, 52, 52, 56] := by decide
+  rw [e]; decide +kernel
+
 #print axioms validate_never_panics
 #print axioms validate_strict_never_panics
 #print axioms accessors_recompose_delimited
@@ -705,4 +722,7 @@ theorem accessors_user_conformance (x : Ext) (s : Str) (h : utf8Valid s = true)
 #print axioms constructor_with_bytes_partial
 #print axioms with_bytes_empty_panics
 #print axioms accessors_user_conformance
+#print axioms ipv6_reference_in_spec_grammar
+#print axioms server_accept_iff_grammar
+#print axioms accepted_server_has_no_nul
 end Ruma.Props.C10
